@@ -16,6 +16,9 @@ HSFZ = "gallia.transports.hsfz"
 
 
 def run(m: Model, r: Report, tier: str) -> None:
+    r.rule("R12", "the HSFZ control words (Data, Ack, AliveCheck, the error words) carry the protocol's values", floor=2)
+    from sa.oracles import iso13400
+    tr.protocol_tables(m, r, "R12", HSFZ, iso13400.HSFZ_TABLES)
     r.rule("R1", "HSFZHeader / HSFZDiagReqHeader pack and unpack agree (format, arity, field order, network byte order)", floor=8)
     r.rule("R2", "_read_frame consumes exactly 6 + Len bytes with readexactly on every path (short frames included)", floor=4)
     r.rule("R3", "the reader task never blocks on a lock that a consumer holds while waiting for the read queue", floor=1)
